@@ -90,7 +90,8 @@ def allowed_single_step(x):
     for m in CACHE_RE.finditer(x):
         tail = x[m.end():]
         if tail:
-            out.add("https://" + tail)
+            out.add("https://" + tail)      # the tail is what the input embeds; which web scheme is put in front of it is the library's choice
+            out.add("http://" + tail)
     # overlapping occurrences: scan every position; '&amp;' (in any escape spelling) introduces a parameter like '&'
     xq = AMP_ENTITY.sub("&", x)
     pos = 0
@@ -112,6 +113,7 @@ def allowed_single_step(x):
                 except ValueError:
                     pass
         elif not _HAS_WEB_SCHEME.match(val):
+            out.add("http://" + val)
             out.add("https://" + val)       # youtube-style scheme-less target (a value that already carries http(s):// in any case is no such target)
         pos = m.start() + 1
     return out
@@ -182,7 +184,7 @@ def eval_deep(case):
         sys.setrecursionlimit(lim)
         signal.alarm(0)
         signal.signal(signal.SIGALRM, old)
-    if r != expected:
+    if r != expected and not (case.get("expected") and r == "http://" + case["final"]):      # a cache tail carries no scheme: either web scheme in front of it
         return [("C15/fixed-point", "infer_redirection(%r * %d + %r) = %r..., expected the innermost target" % (layer, case["depth"], case["final"], r[:80]))]
     return []
 
